@@ -409,10 +409,15 @@ Proof.
     destruct M as (E1 & W1 & F1 & A1 & O1 & L1 & C1 & N1 & LH1). split; auto.
     destruct W as (_ & W2 & W3). rewrite W3 in W2 by auto.
     unfold c, contents, window. rewrite L1. replace (len s) with 0 by lia. reflexivity. }
-  destruct (if isnil s then new_empty h else (h, s)) as [h0 s0]. destruct P0 as (W0 & C0).
-  destruct d as [l| |].
-  - pose proof (unmarshal_arr_spec h0 s0 l oc W0) as U. destruct (unmarshal_arr h0 s0 l oc) as [h1 s1].
-    destruct U as (W1 & C1). unfold ok. apply post_mut; auto.
+  destruct (if isnil s then new_empty h else (h, s)) as [h0 s1]. destruct P0 as (W1 & C1).
+  destruct (prim_clip_spec h0 s1 W1) as (W0 & C0'). set (s0 := prim_clip s1) in *.
+  assert (C0 : contents h0 s0 = c) by (rewrite C0'; exact C1).
+  destruct d as [l|ds| |].
+  - pose proof (unmarshal_arr_spec h0 s0 l oc W0) as U. destruct (unmarshal_arr h0 s0 l oc) as [h1 s2].
+    destruct U as (W2 & C2). unfold ok. apply post_mut; auto.
+  - pose proof (unmarshal_arr_spec h0 s0 (merge_all (contents h0 s0) ds) oc W0) as U.
+    destruct (unmarshal_arr h0 s0 (merge_all (contents h0 s0) ds) oc) as [h1 s2].
+    destruct U as (W2 & C2). unfold ok. apply post_mut; auto. rewrite C2, C0. reflexivity.
   - unfold ok. apply post_mut; auto. apply wfs_nil.
   - apply post_mut; auto.
 Qed.
